@@ -23,7 +23,12 @@ RULE = (
     "delimiter made of white space only (TAB, a blank, runs and mixtures of the two), used like any other delimiter — empty "
     "tokens at the start and in the middle of such a line keep their places — and, Spec.C11.inDomain leaving these "
     "delimiters out, admitted when the model admits the same layout and values under a stand-in one-character delimiter "
-    "and the tokens it renders satisfy Spec.C11.tokensOk for the real one."
+    "and the tokens it renders satisfy Spec.C11.tokensOk for the real one. Half of the register-file cases put the observed "
+    "register class into a FAMILY: it derives from (or is the base of) another concrete delimited register class with its own LINE "
+    "(one field fewer / one more, another delimiter, another identifier width, field objects shared or not); registers of the "
+    "relative are read from the same file before and between the observed lines and written to the same storage before the "
+    "observed register is written, and the observed class must still read every line as the model reads it under ITS OWN layout "
+    "and write the identifier plus the model's written line."
 )
 ASSUMPTIONS = [
     "no rendering contains the delimiter as a substring (the property's wording), and the self-overlapping corner is excluded: splitting the joined tokens must give the tokens back (Spec.C11.tokensOk)",
@@ -143,6 +148,8 @@ def run_impl(case):
         out = {"written": codec.enc_str(w), "read_back": [codec.enc_val(x) for x in r], "read_padded": [codec.enc_val(x) for x in rp], "seq_reads": seq}
         if case.get("via_register"):
             out["register_reads"] = register_reads(case)
+            if case.get("family"):
+                out["register_written"] = codec.enc_str(register_written(case))
         return out
     except Exception as e:
         return codec.enc_exc(e)
@@ -152,33 +159,112 @@ def body(line):
     return line[:-1] if line.endswith("\n") else line
 
 
-def register_reads(case):
-    """the same sequence of lines through RegisterFile.read with ONE delimited register class"""
+def register_classes(case):
+    """the observed delimited register class R (layout of the case) and, when the case has a family, a relative:
+    another concrete register class with a LINE of its own, of which R is the base or from which R derives"""
     from cfinterface.components.line import Line
     from cfinterface.components.register import Register
-    from cfinterface.files.registerfile import RegisterFile
+    from cfinterface.components.literalfield import LiteralField
 
     d = codec.dec_str(case["delimiter"])
     fs = [codec.mk_field(fd) for fd in case["fields"]]
+    fam = case.get("family")
+    if not fam:
+
+        class R(Register):
+            IDENTIFIER = "ID"
+            IDENTIFIER_DIGITS = 2
+            LINE = Line(fs, delimiter=d)
+
+        return R, None
+    od = codec.dec_str(fam["delimiter"])
+    n = len(fs)
+    if fam["observed"] == "derived":
+        # the relative is the base: one field fewer (the same number for a one-field layout)
+        m = n - 1 if n > 1 else n
+        ofs = fs[:m] if fam.get("share") else [codec.mk_field(fd) for fd in case["fields"][:m]]
+
+        class B(Register):
+            IDENTIFIER = "CO"
+            IDENTIFIER_DIGITS = fam["id_digits"]
+            LINE = Line(ofs, delimiter=od)
+
+        class R(B):
+            IDENTIFIER = "ID"
+            IDENTIFIER_DIGITS = 2
+            LINE = Line(fs, delimiter=d)
+
+        return R, B
+    # the relative derives from the observed class and has one more field
+    ofs = (list(fs) if fam.get("share") else [codec.mk_field(fd) for fd in case["fields"]]) + [LiteralField(6, 0)]
 
     class R(Register):
         IDENTIFIER = "ID"
         IDENTIFIER_DIGITS = 2
         LINE = Line(fs, delimiter=d)
 
+    class B(R):
+        IDENTIFIER = "CO"
+        IDENTIFIER_DIGITS = fam["id_digits"]
+        LINE = Line(ofs, delimiter=od)
+
+    return R, B
+
+
+def relative_data(case, B):
+    vals = [codec.dec_val(v) for v in case["values"]]
+    m = len(B.LINE.fields)
+    return vals[:m] + ["zz"] * (m - len(vals))
+
+
+def register_reads(case):
+    """the same sequence of lines through RegisterFile.read with a delimited register class (alone, or with lines of
+    a relative of its family before / between its own)"""
+    from cfinterface.files.registerfile import RegisterFile
+
+    d = codec.dec_str(case["delimiter"])
+    R, B = register_classes(case)
+
     class F(RegisterFile):
-        REGISTERS = [R]
+        REGISTERS = [R] if B is None else ([B, R] if case["family"].get("listed_first") else [R, B])
 
     # (the line's own newline is dropped, not turned into a blank: a blank may be the delimiter)
-    content = "".join("ID" + d + body(codec.dec_str(l)).replace("\n", " ") + "\n" for l in case["lines"])
+    bodies = [body(codec.dec_str(l)).replace("\n", " ") for l in case["lines"]]
+    content = ""
+    mix = case["family"]["mix"] if B is not None else []
+    if B is not None:
+        od = B.LINE.delimiter
+        if mix and mix[0]:
+            # a written register of the relative comes first
+            content += "CO" + od + B.LINE.write(relative_data(case, B))
+    for i, b in enumerate(bodies):
+        content += "ID" + d + b + "\n"
+        if i + 1 < len(mix) and mix[i + 1]:
+            # the tokens of the line just read, as a line of the relative
+            content += "CO" + od + od.join(b.split(d)) + "\n"
     f = F.read(content)
-    return [[codec.enc_val(x) for x in r.data] for r in f.data.of_type(R)]
+    return [[codec.enc_val(x) for x in r.data] for r in f.data.of_type(R) if type(r) is R]
+
+
+def register_written(case):
+    """the observed register written to a TEXT storage after (family "write_first") a register of its relative"""
+    from io import StringIO
+
+    R, B = register_classes(case)
+    vals = [codec.dec_val(v) for v in case["values"]]
+    if case["family"].get("write_first"):
+        B(data=relative_data(case, B)).write(StringIO(), "TEXT")
+    else:
+        B(data=relative_data(case, B)).read(StringIO("CO\n"), "TEXT")
+    out = StringIO()
+    R(data=list(vals)).write(out, "TEXT")
+    return out.getvalue()
 
 
 def request(case, obs):
     if "harness_exc" in obs:
         obs = {"exc": "harness"}
-    o = {k: v for k, v in obs.items() if k != "register_reads"}
+    o = {k: v for k, v in obs.items() if k not in ("register_reads", "register_written")}
     return {"op": "c11", "fields": case["fields"], "values": case["values"], "delimiter": case["delimiter"], "pads": case["pads"], "lines": case["lines"], "obs": o}
 
 
@@ -204,7 +290,16 @@ def judge(case, obs, resp):
         # each register's data = the model's read of its own line (with the identifier token dropped)
         exp = (resp.get("model") or {}).get("seq_reads")
         if exp is not None and obs["register_reads"] != exp:
-            return {"status": "oracle", "why": f"RegisterFile.read of delimited registers: got {showvals(obs['register_reads'])} required {showvals(exp)}"}
+            fam = f" (family: the {case['family']['observed']} class observed)" if case.get("family") else ""
+            return {"status": "oracle", "why": f"RegisterFile.read of delimited registers{fam}: got {showvals(obs['register_reads'])} required {showvals(exp)}"}
+    if "register_written" in obs:
+        # a register with a value is written as its identifier and the model's written line, joined by the delimiter
+        w = (resp.get("model") or {}).get("written")
+        if w is not None and any(v is not None for v in case["values"]):
+            exp = "ID" + codec.dec_str(case["delimiter"]) + codec.dec_str(w)
+            got = codec.dec_str(obs["register_written"])
+            if got != exp:
+                return {"status": "oracle", "why": f"Register.write of a delimited register class with a relative ({case['family']['observed']} class observed): got {got!r} required {exp!r}"}
     if not resp["agree"]:
         return {"status": "corr", "why": f"model {show(resp.get('model'))} vs implementation {show(obs)}"}
     return {"status": "ok", "why": ""}
@@ -247,6 +342,8 @@ def features(case, obs):
         f.append("line_short" if c < n else ("line_long" if c > n else "line_exact"))
     if case.get("via_register"):
         f.append("via_register_file")
+        if case.get("family"):
+            f.append("register_family_observed_" + case["family"]["observed"])
     if ws_only(codec.dec_str(case["delimiter"])):
         f.append("delim_white_space_only")
         if any(v is None for v in case["values"][:-1]):
@@ -300,7 +397,19 @@ def random_case(rng):
         if rng.random() < 0.7:
             line += "\n"
         lines.append(codec.enc_str(line))
-    return {"fields": fields, "values": values, "delimiter": codec.enc_str(d), "pads": pads, "lines": lines, "via_register": rng.random() < 0.3}
+    case = {"fields": fields, "values": values, "delimiter": codec.enc_str(d), "pads": pads, "lines": lines, "via_register": rng.random() < 0.3}
+    if case["via_register"] and rng.random() < 0.5:
+        # the observed register class inside a family of two concrete classes, each with a LINE of its own
+        case["family"] = {
+            "observed": rng.choice(["derived", "derived", "base"]),
+            "delimiter": codec.enc_str(rng.choice([d, rng.choice(DELIMS), rng.choice(DELIMS)])),
+            "id_digits": rng.choice([2, 2, 3]),
+            "share": rng.random() < 0.5,
+            "listed_first": rng.random() < 0.5,
+            "write_first": rng.random() < 0.7,
+            "mix": [rng.random() < 0.7] + [rng.random() < 0.5 for _ in lines],
+        }
+    return case
 
 
 def corpus_cases():
@@ -352,8 +461,12 @@ def _shrinks(case):
     if n > 1:
         for i in range(n):
             yield {**case, "fields": case["fields"][:i] + case["fields"][i + 1 :], "values": case["values"][:i] + case["values"][i + 1 :], "pads": case["pads"][:i] + case["pads"][i + 1 :]}
+    if case.get("family"):
+        yield {k: v for k, v in case.items() if k != "family"}
+        if any(case["family"]["mix"][1:]):
+            yield {**case, "family": {**case["family"], "mix": case["family"]["mix"][:1] + [False] * (len(case["family"]["mix"]) - 1)}}
     if case.get("via_register"):
-        yield {**case, "via_register": False}
+        yield {k: v for k, v in case.items() if k != "family"} | {"via_register": False}
     if any(p != [0, 0] for p in case["pads"]):
         yield {**case, "pads": [[0, 0]] * len(case["pads"])}
     for i, v in enumerate(case["values"]):
